@@ -420,6 +420,12 @@ def _memo_key(v, typed):
         return ('sym', repr(v))        # a symbolic scalar: equal exactly to itself
     if isinstance(v, Arr) or isinstance(v, (list, dict, set)):
         raise InterpRaise("unhashable type: '%s'" % ('numpy.ndarray' if isinstance(v, Arr) else type(v).__name__), 'TypeError')
+    from .absint import Obj, ClassRef, Closure, BoundMethod
+    if isinstance(v, (Obj, ClassRef, Closure)):
+        # objects hash and compare by identity unless their class says otherwise (Obj.__hash__ / __eq__ follow the class)
+        return ('obj', v)
+    if isinstance(v, BoundMethod):
+        return ('bound', v.func, _memo_key(v.obj, typed))
     raise AnalysisError('memoised call with an argument of kind %s' % type(v).__name__)
 
 
@@ -1957,6 +1963,20 @@ class Models(object):
             raise AnalysisError('np.tile of a %d-d array with reps %r' % (a.ndim, reps))
         flat = a.ravel().items()
         return Arr((len(flat) * reps,), list(flat) * reps, kind=a.kind)
+
+    def np_count_nonzero(self, a, axis=None, **kw):
+        _only(kw, ('keepdims',), 'np.count_nonzero')
+        a = self.np_asarray(a)
+        flags = []
+        for v in a.items():
+            if isinstance(v, bool):
+                flags.append(1 if v else 0)
+            else:
+                c = ndarr.concrete_real(v)
+                if c is None:
+                    raise AnalysisError('np.count_nonzero of an undetermined element %r' % (v,))
+                flags.append(1 if c != 0 else 0)
+        return self.np_sum(Arr(a.shape, flags, kind='i'), axis=axis, **kw)
 
     def np_trace(self, a, offset=0):
         a = self.np_asarray(a)
